@@ -71,22 +71,22 @@ SplitOK(w, ifs, fs) ==
 (***************************************************************************)
 (* Segment alphabet of the generator: id -> position                        *)
 (***************************************************************************)
-Chars == <<"x", "SP", "TAB", ",", ":", "U1", "CR">>     \* CR: white space that is in no IFS setting
+Chars == <<"x", "SP", "TAB", ",", "1", "U1", "CR">>     \* CR: white space that is in no IFS setting
 SegKinds == [i \in 1..(2 * Len(Chars) + 1) |->
                IF i <= Len(Chars) THEN [c |-> Chars[i], q |-> FALSE]
                ELSE IF i <= 2 * Len(Chars) THEN [c |-> Chars[i - Len(Chars)], q |-> TRUE]
                ELSE [c |-> "", q |-> TRUE]]
 
 (* IFS settings: name -> set of symbols ("unset" behaves as the default) *)
-IFSNames == <<"unset", "default", "sp_comma", "comma", "colon", "empty", "sp_u1", "comma_colon">>
+IFSNames == <<"unset", "default", "sp_comma", "comma", "one", "empty", "sp_u1", "comma_one">>
 IFSOf(n) == CASE n = "unset"       -> DefaultIFS
               [] n = "default"     -> DefaultIFS
               [] n = "sp_comma"    -> {"SP", ","}
               [] n = "comma"       -> {","}
-              [] n = "colon"       -> {":"}
+              [] n = "one"       -> {"1"}
               [] n = "empty"       -> {}
               [] n = "sp_u1"       -> {"SP", "U1"}
-              [] n = "comma_colon" -> {",", ":"}
+              [] n = "comma_one" -> {",", "1"}
 
 WordOf(segs) == [i \in 1..Len(segs) |-> SegKinds[segs[i]]]
 
